@@ -57,15 +57,22 @@ theorem fact_service_writers_locked :
     verdict, `clientUpdater.update` never leaves early (a failing service does not stop the others), `validate` /
     `removeRevoked` only `continue` -/
 theorem fact_loops_visit_everything :
-    Facts.C16.loopJumps = ["validateRegistration:return errPresentationValidityExceedsCredentials", "validateAudience:return nil",
+    Facts.C16.loopJumps = ["validateRegistration:return errCredentialWithoutID",
+      "validateRegistration:return errPresentationValidityExceedsCredentials", "validateAudience:return nil",
       "validate:continue", "validate:continue", "validate:continue", "removeRevoked:continue", "removeRevoked:continue"] := rfl
 
 /-- comparisons are exact: audience by `==`, DID method by `slices.Contains`, credential expiry by `After`, PEX by count -/
 theorem fact_comparisons_exact :
     Facts.C16.comparisons = ["aud: audienceID == service.ID",
       "method: len(definition.DIDMethods) > 0 && !slices.Contains(definition.DIDMethods, credentialSubjectID.Method)",
+      "registration: cred.ID == nil",
       "registration: cred.ExpirationDate != nil && expiration.After(*cred.ExpirationDate)", "registration: err != nil",
       "registration: len(creds) != len(presentation.VerifiableCredential)"] := rfl
+
+/-- `storePresentation` checks `credential.ID` before it hands the credential to the credential store, which dereferences
+    it (fix e361284): the model's `Store.add` returns `cred-no-id` there and has no panic site for it -/
+theorem fact_store_guards_credential_id :
+    Facts.C16.storeCredentialGuards = ["if verifiableCredential.ID == nil", "credentialStore.Store", "if err != nil"] := rfl
 
 /-- an entry is identified by (service, signer, presentation id) — everywhere `exists` is asked (`Store.hasKey`) -/
 theorem fact_exists_key :
@@ -370,6 +377,50 @@ theorem poll_never_fails (d : Def) (K : VP → Prop) (hK : IdFun K) (w : World) 
   pollB_ok factCfg factCfg_serviceFirst factCfg_restartOnWipe d w perm hperm
     (winv_reach hK factCfg factCfg_serviceFirst factCfg_restartOnWipe d hw) p hp
 
+/-- a presentation holding a credential WITHOUT id (an optional member of the data model) is refused before anything is
+    stored, whatever the other verdicts say — by `Register` on the server, and by `sqlStore.add` itself (a client stores what
+    a server hands out BEFORE verifying it): an error, never a panic, and no row -/
+theorem credential_without_id_refused (d : Def) (s : Store) (now seed ts fresh : Nat) (vp : VP)
+    (h : vp.creds.any (fun c => !c.hasId) = true) :
+    (∀ p, (s.add now vp seed ts fresh).2 ≠ .panic p ∨ vp.id = none ∨ vp.jwt = false) ∧
+    (s.add now vp seed ts fresh).2 ≠ .ok (Inhabited.default) ∧
+    (∀ row, (s.add now vp seed ts fresh).2 ≠ .ok row) ∧
+    (register d s now fresh vp).2 ≠ .ok () ∧ (register d s now fresh vp).1 = s ∧ ∀ p, (register d s now fresh vp).2 ≠ .panic p := by
+  have hadd : ∀ row, (s.add now vp seed ts fresh).2 ≠ .ok row := by
+    intro row
+    unfold Store.add
+    split
+    · simp
+    · split
+      · simp
+      · split
+        · simp
+        · simp [h]
+  have hreg : (register d s now fresh vp).2 ≠ .ok () := by
+    intro hok
+    obtain ⟨subj, e, id, hA, _, _⟩ := (register_ok_iff d s now fresh vp).mp hok
+    rw [hA.credsHaveId] at h
+    cases h
+  refine ⟨?_, hadd _, hadd, hreg, ?_, fun p => register_ne_panic d s now fresh vp p⟩
+  · intro p
+    unfold Store.add
+    split
+    · left; simp
+    · split
+      · right; left; assumption
+      · split
+        · right; right; assumption
+        · left; simp [h]
+  · rcases register_cases d s now fresh vp with ⟨o, ho, _⟩ | ⟨_, _, _, _, _, _, hreg'⟩
+    · rw [ho]
+    · rw [hreg'] at hreg; exact absurd rfl hreg
+
+/-- the shapes in question are accepted by nothing: a registration whose only flaw is a credential without id -/
+example : (register exDef {} 10 1 { exVP "a" "v1" 50 with creds := [{ exp := some 60, hasId := false }, { exp := none }] }).2
+    = .err "cred-no-id" := by decide
+example : (({} : Store).add 10 { exVP "a" "v1" 50 with creds := [{ exp := none }, { exp := some 60, hasId := false }] } 1 3 7).2
+    = .err "cred-no-id" := by decide
+
 /-! ### non-vacuity of the replica theorems -/
 
 def exK : VP → Prop := fun vp => vp = exVP "a" "v1" 100 ∨ vp = exVP "b" "v2" 110 ∨ vp = exRetract "a" "v3" "v1" 100
@@ -417,7 +468,7 @@ example : ∀ vp ∈ [exVP "a" "v1" 100], ∃ subj id e, VPWF vp subj id e ∧ e
   intro vp hvp
   simp only [List.mem_singleton] at hvp
   subst hvp
-  exact ⟨"a", "v1", 100, ⟨⟨"example", rfl⟩, rfl, rfl, rfl⟩, by decide⟩
+  exact ⟨"a", "v1", 100, ⟨⟨"example", rfl⟩, rfl, rfl, rfl, rfl⟩, by decide⟩
 
 /-- `reset_restarts` applies: after a reset and a new first registration the replica's seed is another one -/
 def exResetWorld : World := run factCfg exDef { t := 10 }
